@@ -20,7 +20,7 @@ type c02form struct {
 
 func c02forms() []c02form {
 	return []c02form{
-		{"int", 5}, {"negint", -3}, {"zero", 0}, {"uint64max", uint64(math.MaxUint64)}, {"float", 2.5}, {"floatexp", 1e21}, {"negfloat", -0.25},
+		{"int", 5}, {"negint", -3}, {"zero", 0}, {"uint64max", uint64(math.MaxUint64)}, {"float", 2.5}, {"floatexp", 1e21}, {"floatprecise", 1.2345678901234567e+25}, {"floatmax", math.MaxFloat64}, {"floatnegbig", -9.87654321987654321e+200}, {"float17digits", 0.12345678901234568}, {"negfloat", -0.25},
 		{"true", true}, {"false", false}, {"null", nil}, {"empty", ""}, {"lit", "plain text"}, {"lit-quote", `say "hi"\n`}, {"lit-unicode", "zażółć 😀"},
 		{"svc", "@dep"}, {"svc-nonshared", "@depNS"},
 		{"value-var", "!value pk.Var"}, {"value-const", "!value pk.Const"}, {"value-chain", `!value "fx/pk".VarVal.F1`},
@@ -273,6 +273,16 @@ func c02cases(quick bool) []*BCase {
 		cfg.Services = append(cfg.Services, e.svcs...)
 		cfg.Decorators = e.decs
 		add("error/"+e.id, cfg, false)
+	}
+	// the todo marker (and its withdrawal) arriving from a later file
+	{
+		cfg := c02base(false)
+		cfg.Services = append(cfg.Services, Service{Name: "sut", Todo: P(true)}, Service{Name: "done", Constructor: P("pk.New3"), Args: []any{"finished"}, Todo: P(false)}, Service{Name: "user", Constructor: P("pk.New"), Args: []any{"@sut"}})
+		f1 := c02base(false)
+		f1.Services = append(f1.Services, Service{Name: "sut", Constructor: P("pk.New"), Args: []any{"real"}, Todo: P(false)}, Service{Name: "done", Todo: P(true)}, Service{Name: "user", Constructor: P("pk.New"), Args: []any{"@sut"}})
+		f2 := &Cfg{Services: []Service{{Name: "sut", Todo: P(true)}, {Name: "done", Constructor: P("pk.New3"), Args: []any{"finished"}, Todo: P(false)}}}
+		cases = append(cases, &BCase{ID: "error/todo-from-later-file", Cfg: cfg, Files: []File{{"a.yaml", f1.YAML()}, {"b.yaml", f2.YAML()}},
+			Sessions: []BSession{{Ops: []ProbeOp{op("get", "sut"), op("get", "user"), op("get", "done"), op("get", "dep")}}}})
 	}
 	return cases
 }
